@@ -513,8 +513,11 @@ def run(ctx):
         "the tie, other compressors are not compared (search oracle only)",
         "props/C05/compleg.py (locator of the blocks of a real image, codec-aware field edits, hand-made LZMA-alone streams; "
         "Python zlib / lzma, system liblz4 / libzstd via ctypes) + props/C10/sizeleg.py, errleg.py reused by path",
-        "props/C05/h_lookup.c (lookup harness, paths in exactly sized heap buffers) + props/C05/lookup.py: expect_resolve / "
-        "expect_tree are a Python transliteration of coq/C05/Lookup.v (resolve LenStrlen), not the extracted model",
+        "props/C05/h_lookup.c (lookup harness, paths in exactly sized heap buffers) + props/C05/lookup.py + lookup_driver.ml "
+        "(glue around the extracted coq/C05/Lookup.v `resolve`, ExtractC05Lookup.v: ExtrOcamlBasic only); the directory "
+        "listings given to the model are read from the image by vlib/sqfsimg.py; expect_tree (get_full_hierarchy, a different "
+        "loop shape, not in the Coq model) and the answers of queries beyond lookup.MODEL_COST_LIMIT (model_skipped) are a "
+        "Python transliteration",
     ]
     ctx.assumptions += [
         "size_t is 64 bit; allocations above 2 GiB fail (model: alloc_limit; implementation run with the same limit)",
@@ -610,9 +613,10 @@ def run(ctx):
     v, lkst = lookup.run_leg(ctx, e, random.Random(ctx.seed * 49979687 + 29), run_proc, died, TIMEOUT)
     viol += v
     stats_all.append(lkst)
-    ctx.log("lookup leg: %d images, %d paths, %d API calls, %d answers checked against the model, %d tool runs, %d problems so "
-            "far (%.1fs)" % (lkst["images"], lkst["queries"], lkst["calls"], lkst["answers_checked"], lkst["tool_runs"], len(viol),
-                             time.time() - tl))
+    ctx.log("lookup leg: %d images, %d paths, %d API calls, %d answers checked (%d paths answered by the extracted model, %d "
+            "too long for it), %d tool runs, %d problems so far (%.1fs)" % (
+                lkst["images"], lkst["queries"], lkst["calls"], lkst["answers_checked"], lkst["model_answers"],
+                lkst["model_skipped"], lkst["tool_runs"], len(viol), time.time() - tl))
     by_p = {}
     for nm, img, p in real_cases:
         by_p.setdefault(p, []).append((nm, img))
@@ -707,8 +711,12 @@ def run(ctx):
         "looked-up component; before / after / instead of benign entries; as directory or file), %d paths each handed in a heap "
         "buffer of exactly strlen+1 bytes to sqfs_dir_reader_resolve_path (root NULL / root inode / DOT_ENTRIES reader + "
         "resolve_inum) and sqfs_dir_reader_get_full_hierarchy (flags 0 / STORE_PARENTS): %d calls under ASan/UBSan, %d answers "
-        "compared with the component-match model (coq/C05/Lookup.v via its transliteration); rdsquashfs -l/-s/-c <path> on %d "
-        "(image, path) pairs." % (lkst["images"], lkst["queries"], lkst["calls"], lkst["answers_checked"], lkst["tool_runs"]))
+        "compared: resolve_path with the extracted component-match model (coq/C05/Lookup.v `resolve` LenStrlen through "
+        "ExtractC05Lookup.v, %d paths in one driver process; %d paths with a name and a path of tens of KiB are beyond the "
+        "list model's run time and compared with its Python transliteration), get_full_hierarchy with expect_tree (Python, "
+        "observed: its loop is not in the Coq model); rdsquashfs -l/-s/-c <path> on %d (image, path) pairs." % (
+            lkst["images"], lkst["queries"], lkst["calls"], lkst["answers_checked"], lkst["model_answers"],
+            lkst["model_skipped"], lkst["tool_runs"]))
     ctx.coverage["distribution"] = dict(images=len(cases) + len(real_cases) + nwrap + nhuge + csum.get("images", 0) + 1, wrap_boundary_images=nwrap,
                                         huge_size_images=nhuge, compressed_block_images=csum.get("images", 0),
                                         transcripts_compared=tot["compared"],
@@ -717,7 +725,8 @@ def run(ctx):
                                         tool_verdicts_checked=tot["verdict_checked"], meta_sequences=nmeta,
                                         error_classes_reached=len(errc), nest_depth_tested=NEST_TESTED)
     ctx.coverage["compressed_block_leg"] = csum
-    ctx.coverage["lookup_leg"] = {k: lkst[k] for k in ("images", "queries", "calls", "answers_checked", "found", "tool_runs", "unk")}
+    ctx.coverage["lookup_leg"] = {k: lkst[k] for k in ("images", "queries", "calls", "answers_checked", "model_answers", "model_skipped", "found",
+                                                          "tool_runs", "unk")}
     ctx.coverage["huge_size_leg"] = dict(images=nhuge, exit_codes=[st for st in stats_all if "exit_codes" in st][0]["exit_codes"])
     ctx.coverage["error_classes"] = dict(sorted(errc.items())[:60])
     ctx.add_samples([dict(image=cases[i][0], bytes=len(cases[i][1])) for i in (1, len(cases) // 2, len(cases) - 1)])
@@ -728,3 +737,4 @@ def setup():
     core.build_model_driver("C05", "ExtractC05.v", os.path.join(HERE, "driver.ml"),
                             stubs_c=os.path.join(HERE, "stubs.c"), cclibs=["-lz"])
     core.build_model_driver("C05CompOpt", "ExtractC05CompOpt.v", os.path.join(HERE, "compopt", "driver.ml"))
+    lookup.model_driver()
